@@ -36,6 +36,15 @@ def gen_asm(tier, seed):
             add("near-miss", f"x{v} halt\n")
             add("in-comment", f"halt ; {v} r1\n")
             add("in-string", f".stringz \"{v}\"\n")
+    # DATA words whose top four bits happen to be 1101: the extension is about mnemonics (assembler) and about
+    # FETCHED instruction words (VM); a data word is neither, with the flag or without it
+    for v in ("xD000", "xD123", "xDFFF", "#-10000", "#-8193", "#-12288", "#53248", "#57343", "0xd800", "b1101000000000001"):
+        add("data-word", f"lea r0 d\nldr r1 r0 #0\nhalt\nd .fill {v}\n")
+        add("data-word", f".fill {v}\n")
+        add("data-word", f"d .fill {v}\n.fill {v}\nhalt\n.fill {v}\n")
+    add("data-word", "halt\ns .stringz \"\ud55c\ud000\ud7a3\"\n")
+    add("data-word", ".orig xD000\nlea r0 here\nhere halt\n")
+    add("data-word", ".orig xD123\n.fill xD123\n")
     n = 300 if tier == "quick" else 20000
     for i in range(n):
         stack = i % 2 == 0
